@@ -253,7 +253,9 @@ func genC16(e *emitter, tier string) {
 					ins[i] = BatchIn{bi.Name, sh, bi.Axis}
 					data[bi.Name] = ints(nelem(sh))
 				}
-				e.emit(batchCase("generated:"+pg.name, func() (*gonnx.Model, error) { return loadModel(g) }, g, ins, data, true))
+				// graphs with transcendental nodes (Softmax, Tanh) are compared up to rounding, the others bit for bit
+				transcendental := pg.name == "batch-axis-inside"
+				e.emit(batchCase("generated:"+pg.name, func() (*gonnx.Model, error) { return loadModel(g) }, g, ins, data, !transcendental))
 			}
 		}
 	}
@@ -371,6 +373,43 @@ func perSampleGraphs(e *emitter) []perSample {
 			{Op: "MatMul", Ins: []string{"lx", "wr"}, Outs: []string{"chain"}},
 		}, Outputs: []string{"lx", "vx", "xr", "w4x", "chain"}},
 		[]BatchIn{{"x", []int{0, 3, 2}, 0}}})
+	// convolutions whose kernel is as large as the (padded) input - one output position per filter, the
+	// "dense layer written as a Conv" - with more and with fewer filters than samples
+	out = append(out, perSample{"conv-full-size", &GraphJ{
+		Inputs: []VInfoJ{{Name: "x", Dt: "f32", Dims: []any{"N", 2, 3, 3}}},
+		Inits: []InitJ{{Name: "w", T: tinyT("f32", []int{3, 2, 3, 3}, 5)}, {Name: "b", T: tinyT("f32", []int{3}, 6)}, {Name: "w5", T: tinyT("f32", []int{5, 2, 3, 3}, 7)},
+			{Name: "wd", T: tinyT("f32", []int{2, 2, 2, 2}, 8)}, sh("fl", []int{0, 18})},
+		Nodes: []NodeJ{
+			{Op: "Conv", Ins: []string{"x", "w", "b"}, Outs: []string{"c"}},
+			{Op: "Conv", Ins: []string{"x", "w5"}, Outs: []string{"c5"}},
+			{Op: "Conv", Attrs: []Attr{{Name: "dilations", Type: "ints", Ints: []int64{2, 2}}}, Ins: []string{"x", "wd"}, Outs: []string{"cd"}},
+			{Op: "Reshape", Ins: []string{"x", "fl"}, Outs: []string{"xf"}},
+		}, Outputs: []string{"c", "c5", "cd", "xf"}},
+		[]BatchIn{{"x", []int{0, 2, 3, 3}, 0}}})
+	out = append(out, perSample{"conv1d-full-size", &GraphJ{
+		Inputs: []VInfoJ{{Name: "x", Dt: "f32", Dims: []any{"N", 2, 4}}},
+		Inits:  []InitJ{{Name: "w", T: tinyT("f32", []int{3, 2, 4}, 5)}, {Name: "b", T: tinyT("f32", []int{3}, 6)}},
+		Nodes:  []NodeJ{{Op: "Conv", Ins: []string{"x", "w", "b"}, Outs: []string{"c"}}},
+		Outputs: []string{"c"}},
+		[]BatchIn{{"x", []int{0, 2, 4}, 0}}})
+	// the batch axis is NOT axis 0: Softmax / LogSoftmax (with and without an axis attribute), reductions and
+	// element-wise operators applied directly to the [seq, 1, batch, hidden] output of a recurrent node and
+	// to sequence-major data
+	out = append(out, perSample{"batch-axis-inside", &GraphJ{
+		Inputs: []VInfoJ{{Name: "x", Dt: "f32", Dims: []any{3, "N", 2}}},
+		Inits:  []InitJ{{Name: "W", T: tinyT("f32", []int{1, 2, 2}, 7)}, {Name: "R", T: tinyT("f32", []int{1, 2, 2}, 8)}},
+		Nodes: []NodeJ{
+			{Op: "RNN", Attrs: []Attr{{Name: "hidden_size", Type: "i", I: 2}, {Name: "activations", Type: "strings", Ss: []string{"relu"}}}, Ins: []string{"x", "W", "R"}, Outs: []string{"Y", "Yh"}},
+			{Op: "Softmax", Ins: []string{"Y"}, Outs: []string{"s"}},
+			{Op: "Softmax", Attrs: []Attr{{Name: "axis", Type: "i", I: 0}}, Ins: []string{"Y"}, Outs: []string{"s0"}},
+			{Op: "LogSoftmax", Attrs: []Attr{{Name: "axis", Type: "i", I: -1}}, Ins: []string{"Y"}, Outs: []string{"ls"}},
+			{Op: "Softmax", Ins: []string{"x"}, Outs: []string{"sx"}},
+			{Op: "Softmax", Attrs: []Attr{{Name: "axis", Type: "i", I: 0}}, Ins: []string{"x"}, Outs: []string{"sx0"}},
+			{Op: "ReduceMax", Attrs: []Attr{{Name: "axes", Type: "ints", Ints: []int64{0}}, {Name: "keepdims", Type: "i", I: 0}}, Ins: []string{"Y"}, Outs: []string{"rm"}},
+			{Op: "ArgMax", Attrs: []Attr{{Name: "axis", Type: "i", I: 3}}, Ins: []string{"Y"}, Outs: []string{"am"}},
+			{Op: "Tanh", Ins: []string{"Yh"}, Outs: []string{"th"}},
+		}, Outputs: []string{"Y", "s", "s0", "ls", "sx", "sx0", "rm", "am", "th"}},
+		[]BatchIn{{"x", []int{3, 0, 2}, 1}}})
 	// recurrent operators: batch is axis 1 of X and of the states
 	for _, op := range []string{"RNN", "GRU", "LSTM", "GRU-lbr", "LSTM-peep"} {
 		G := map[string]int{"LSTM": 4, "GRU": 3, "RNN": 1, "GRU-lbr": 3, "LSTM-peep": 4}[op]
